@@ -4,6 +4,7 @@ package main
 import (
 	"fmt"
 	"os"
+	"runtime/pprof"
 	"strconv"
 
 	"verif/mc/engine/core"
@@ -57,6 +58,14 @@ func main() {
 		root = "/verif"
 	}
 	r := core.NewRun(id, tier, seed, p.Level, root, replay)
+	if pf := os.Getenv("VERIF_CPUPROFILE"); pf != "" {
+		if f, err := os.Create(pf); err == nil {
+			pprof.StartCPUProfile(f)
+			defer pprof.StopCPUProfile()
+		}
+	}
 	p.Run(r)
-	os.Exit(r.Finish())
+	code := r.Finish()
+	pprof.StopCPUProfile()
+	os.Exit(code)
 }
